@@ -9,7 +9,7 @@
    C02_lr_caps_refuted); it stays below as C02_caps_full_statement. *)
 From Coq Require Import ZArith QArith Qround List Permutation.
 From VL Require Import Prelude.PyDict Model.GetNBest Model.Quota Model.QuotaDistributor
-     Proofs.GetNBest_proofs Proofs.QOrd Proofs.QD_proofs Props.GenTie_Quota.
+     Proofs.GetNBest_proofs Proofs.QOrd Proofs.QD_proofs Proofs.QD2_proofs Props.GenTie_Quota.
 From VL Require Gen.Quota.
 Import ListNotations.
 Open Scope Z_scope.
@@ -101,6 +101,54 @@ Section C02.
   Proof. exact lr_total. Qed.
 End C02.
 
+(* ---------------------------------------------------------------- on_overaward = 'subtract': the whole loop
+   _subtract_overaward keeps going after a tie: the Tie object becomes a key of `selected` (holding one seat fewer
+   than it has members) and takes part in the following rounds with no votes and no previous gains.  The model
+   covers this (ksubtract, Model/QuotaDistributor.v); the loop on a plain dictionary is the same loop: *)
+Theorem C02_subtract_one_loop : forall votes q prev fuel sel over,
+  subtract fuel votes q prev sel over = ksubtract fuel votes q prev (plain sel) over.
+Proof. exact subtract_is_ksubtract. Qed.
+
+(* every round withdraws exactly one seat (a tie of m parties: each loses one, the Tie key gains m - 1), whatever the
+   keys: a finished loop leaves total - overaward seats *)
+Theorem C02_subtract_total : forall votes q prev fuel sel over res,
+  NoDup (keys sel) -> 0 <= over ->
+  ksubtract fuel votes q prev sel over = QD_ok res -> ksum res = ksum sel - over.
+Proof. exact ksubtract_total. Qed.
+
+(* the only shape left unmodelled - a Tie key tied with another key (a Tie of a Tie) - cannot arise when the quota
+   is positive and every party's seats plus previous gains are whole quotas contained in its votes: a Tie key then
+   holds a positive remainder, every party a non-positive one, and there is never more than one Tie key *)
+Theorem C02_subtract_modelled : forall votes q prev, (0 < q)%Q -> forall fuel sel over,
+  NoDup (map fst sel) ->
+  (forall c s, In (c, s) sel -> (q * inject_Z (s + dget_or prev c 0)%Z <= dget_or votes c 0%Q)%Q) ->
+  subtract fuel votes q prev sel over <> QD_unmodelled.
+Proof. intros votes q prev Hq fuel sel over. exact (subtract_modelled votes q prev Hq fuel sel over). Qed.
+
+(* QuotaDistributor with on_overaward = 'subtract' on the uncapped domain, positive quota: never unmodelled, and the
+   seats awarded plus the previous gains are the seats to fill whenever the whole quotas over-award (their own total
+   otherwise) *)
+Theorem C02_subtract_policy : forall quota accept_equal votes n prev caps,
+  let q := quota (qsumv votes) n in
+  (0 < q)%Q -> NoDup (map fst votes) -> no_overshoot accept_equal votes q n prev caps ->
+  qd_evaluate quota accept_equal PSubtract votes n prev caps <> QD_unmodelled /\
+  exists sel,
+    (forall c v, In (c, v) votes -> dget_or sel c 0 = whole_add accept_equal q prev c v) /\
+    (forall c, ~ In c (map fst votes) -> dget_or sel c 0 = 0) /\
+    forall res, qd_evaluate quota accept_equal PSubtract votes n prev caps = QD_ok res ->
+      ksum res + zsumv prev = Z.min n (zsumv sel + zsumv prev).
+Proof. exact qd_subtract_domain. Qed.
+
+(* the branch, on inputs replayed on the implementation (corpus/C02/subtract-after-tie-*.json): quota 10, two parties
+   on 30 votes, 4 seats: both tie for the first withdrawal, the Tie key is withdrawn next - {A: 2, B: 2};
+   three parties on 30 votes, 5 seats: {A: 1, B: 1, C: 1, Tie{A,B,C}: 2} *)
+Example C02_subtract_after_tie :
+  qd_evaluate (fun _ _ => 10#1)%Q true PSubtract [(1%positive, 30#1); (2%positive, 30#1)]%Q 4 [] []
+    = QD_ok [(K 1%positive, 2); (K 2%positive, 2)] /\
+  qd_evaluate (fun _ _ => 10#1)%Q true PSubtract [(1%positive, 30#1); (2%positive, 30#1); (3%positive, 30#1)]%Q 5 [] []
+    = QD_ok [(K 1%positive, 1); (K 2%positive, 1); (K 3%positive, 1); (KT [1%positive; 2%positive; 3%positive], 2)].
+Proof. split; vm_compute; reflexivity. Qed.
+
 (* ---- the capped clause: full statement, and its refutation on the pinned tree *)
 Definition C02_caps_full_statement : Prop :=
   forall quota ae pol votes n prev caps sel,
@@ -144,3 +192,7 @@ Print Assumptions C02_at_most_one.
 Print Assumptions C02_lr_total.
 Print Assumptions C02_caps_refuted.
 Print Assumptions C02_lr_caps_refuted.
+Print Assumptions C02_subtract_one_loop.
+Print Assumptions C02_subtract_total.
+Print Assumptions C02_subtract_modelled.
+Print Assumptions C02_subtract_policy.
